@@ -6,6 +6,7 @@ renaming, every descriptor decoded (R-MPT) with the legacy framing checks domina
 dominating the linked file, follow_links control dependence, has_dwarf_info formula, supplementary-link order.
 """
 import ast
+from sa.canon import U
 from sa.world import get_world
 from sa import elfconf, dwconf, layout, expr, paths, streams, dispatch
 from sa.absint import FuncV, Unknown
@@ -61,11 +62,11 @@ def check_layering(ctx, w):
             if isinstance(st, ast.ImportFrom):
                 target = w.model._resolve_import(rel, st.module, st.level)
                 if isinstance(target, str) and (target.startswith('elftools/elf/') or target.startswith('elftools.elf') or target == 'elftools/elf'):
-                    bad.append(ast.unparse(st))
+                    bad.append(U(st))
             elif isinstance(st, ast.Import):
                 for a in st.names:
                     if a.name.startswith('elftools.elf'):
-                        bad.append(ast.unparse(st))
+                        bad.append(U(st))
         ctx.ob('LAYER', rel.replace('elftools/', ''), 'no import from elftools/elf', not bad, got=bad,
                msg='the DWARF layer must depend only on the section descriptors, not on the ELF container', sample='%s imports nothing from elftools.elf' % rel)
         # descriptor attribute reads
@@ -80,7 +81,7 @@ def check_layering(ctx, w):
         raise AnalysisError('LAYER', 'elftools/dwarf', 'only %d dwarf modules found' % n)
     # the descriptor type
     tree = w.model.tree(DI)
-    ok = any(isinstance(st, ast.Assign) and ast.unparse(st).replace('"', "'") ==
+    ok = any(isinstance(st, ast.Assign) and U(st).replace('"', "'") ==
              "DebugSectionDescriptor = namedtuple('DebugSectionDescriptor', 'stream name global_offset size address')" for st in tree.body)
     ctx.ob('LAYER', DI, 'descriptor = (stream, name, global_offset, size, address)', ok)
 
@@ -90,14 +91,14 @@ def check_wiring(ctx, w):
     # 1. section_names tuple literal
     names = None
     for st in ast.walk(f.node):
-        if isinstance(st, ast.Assign) and ast.unparse(st.targets[0]) == 'section_names' and isinstance(st.value, ast.Tuple):
+        if isinstance(st, ast.Assign) and U(st.targets[0]) == 'section_names' and isinstance(st.value, ast.Tuple):
             names = [e.value for e in st.value.elts if isinstance(e, ast.Constant)]
     if not names:
         raise AnalysisError('W-NAME', f.construct, 'section name tuple not found')
     # 2. renaming lambda evaluated on every name
     lam = None
     for st in ast.walk(f.node):
-        if isinstance(st, ast.Assign) and ast.unparse(st.targets[0]) == 'section_names' and isinstance(st.value, ast.Call) and 'map' in ast.unparse(st.value):
+        if isinstance(st, ast.Assign) and U(st.targets[0]) == 'section_names' and isinstance(st.value, ast.Call) and 'map' in U(st.value):
             for x in ast.walk(st.value):
                 if isinstance(x, ast.Lambda):
                     lam = x
@@ -114,12 +115,12 @@ def check_wiring(ctx, w):
                msg='GNU legacy compression renames .debug_<x> to .zdebug_<x> and nothing else (the alt link section keeps its name)',
                sample='%s -> %s under .zdebug' % (nm, want))
     # 3. appended .eh_frame, unpack order, kwargs
-    src = ast.unparse(f.node)
+    src = U(f.node)
     ctx.ob('W-NAME', f.construct, '.eh_frame appended after the renaming', "section_names += ('.eh_frame',)" in src and
            src.index("section_names += ('.eh_frame',)") > src.index('section_names = tuple(map('))
     unpack = None
     for st in ast.walk(f.node):
-        if isinstance(st, ast.Assign) and isinstance(st.targets[0], ast.Tuple) and ast.unparse(st.value) == 'section_names':
+        if isinstance(st, ast.Assign) and isinstance(st.targets[0], ast.Tuple) and U(st.value) == 'section_names':
             unpack = [e.id for e in st.targets[0].elts]
     allnames = names + ['.eh_frame']
     if unpack is None or len(unpack) != len(allnames):
@@ -131,7 +132,7 @@ def check_wiring(ctx, w):
     got = {}
     for k in mk[0].keywords:
         v = k.value
-        if isinstance(v, ast.Subscript) and ast.unparse(v.value) == 'debug_sections' and isinstance(v.slice, ast.Name):
+        if isinstance(v, ast.Subscript) and U(v.value) == 'debug_sections' and isinstance(v.slice, ast.Name):
             got[k.arg] = var2name.get(v.slice.id)
     for k in sorted(got):
         if k == 'eh_frame_sec':
@@ -151,19 +152,19 @@ def check_wiring(ctx, w):
         ctx.ob('W-NAME', g.construct, 'self.%s = %s' % (p, p), tr.get('self.' + p) == [('=', p)], got=tr.get('self.' + p))
     ctx.ob('W-NAME', g.construct, 'nineteen section parameters', len(params) == 19, got=len(params))
     # 5. lookup loop: each name through get_section_by_name; missing -> None
-    loops = [n for n in ast.walk(f.node) if isinstance(n, ast.For) and ast.unparse(n.iter) == 'section_names']
-    ok = len(loops) == 1 and 'section = self.get_section_by_name(secname)' in ast.unparse(loops[0]) and 'debug_sections[secname] = None' in ast.unparse(loops[0])
+    loops = [n for n in ast.walk(f.node) if isinstance(n, ast.For) and U(n.iter) == 'section_names']
+    ok = len(loops) == 1 and 'section = self.get_section_by_name(secname)' in U(loops[0]) and 'debug_sections[secname] = None' in U(loops[0])
     ctx.ob('W-NAME', f.construct, 'every name looked up; absent -> None', ok)
     ctx.ob('W-NAME', f.construct, 'compressed iff .zdebug_info exists', "compressed = self.has_section('.zdebug_info')" in src)
     cfg = [c for c in ast.walk(f.node) if isinstance(c, ast.Call) and dispatch.callee_name(c) == 'DwarfConfig']
-    kw = dict((k.arg, ast.unparse(k.value)) for k in cfg[0].keywords) if cfg else None
+    kw = dict((k.arg, U(k.value)) for k in cfg[0].keywords) if cfg else None
     ctx.ob('W-NAME', f.construct, 'config from the file header', kw == {'little_endian': 'self.little_endian', 'default_address_size': 'self.elfclass // 8',
                                                                      'machine_arch': 'self.get_machine_arch()'}, got=kw)
 
 
 def check_decoding(ctx, w):
     f = w.model.func(EF, 'ELFFile.get_dwarf_info')
-    loops = [n for n in ast.walk(f.node) if isinstance(n, ast.For) and ast.unparse(n.iter) == 'section_names']
+    loops = [n for n in ast.walk(f.node) if isinstance(n, ast.For) and U(n.iter) == 'section_names']
     if len(loops) != 1:
         raise AnalysisError('R-MPT', f.construct, 'section loop not found')
     lp = loops[0]
@@ -172,14 +173,14 @@ def check_decoding(ctx, w):
     ok_read = ok_z = True
     n_store = 0
     for p in paths.enum_paths(lp.body):
-        stores = [s for s in p.stmts() if isinstance(s, ast.Assign) and ast.unparse(s.targets[0]) == 'debug_sections[secname]']
-        if not stores or ast.unparse(stores[-1].value) == 'None':
+        stores = [s for s in p.stmts() if isinstance(s, ast.Assign) and U(s.targets[0]) == 'debug_sections[secname]']
+        if not stores or U(stores[-1].value) == 'None':
             continue
         n_store += 1
-        src = ' '.join(ast.unparse(s) for s in p.stmts())
-        if 'dwarf_section = self._read_dwarf_section(section, relocate_dwarf_sections)' not in src or ast.unparse(stores[-1].value) != 'dwarf_section':
+        src = ' '.join(U(s) for s in p.stmts())
+        if 'dwarf_section = self._read_dwarf_section(section, relocate_dwarf_sections)' not in src or U(stores[-1].value) != 'dwarf_section':
             ok_read = False
-        conds = dict((expr.cond_str(t, env), pol) for t, pol in p.conds())
+        conds = expr.Facts(expr.CP(expr.cond_str(t, env), pol) for t, pol in p.conds())
         z = conds.get(expr.spec_cond("compressed and startswith(secname, '.z')"))
         if z is None:
             ok_z = False
@@ -197,9 +198,9 @@ def check_decoding(ctx, w):
     ctx.ob('R-MPT', g.construct, 'fresh BytesIO over section.data()', tr.get('section_stream') == [('=', 'BytesIO()')] and tr.get('section_data') == [('=', 'data(section)')],
            got=(tr.get('section_stream'), tr.get('section_data')), msg='one private stream per section over the (gABI-decompressed) logical bytes')
     ctx.ob('R-MPT', g.construct, 'whole payload written (phantom bytes: every other byte)',
-           'section_stream.write(section_data[::2] if phantom_bytes else section_data)' in ast.unparse(g.node))
+           'section_stream.write(section_data[::2] if phantom_bytes else section_data)' in U(g.node))
     mk = [c for c in ast.walk(g.node) if isinstance(c, ast.Call) and dispatch.callee_name(c) == 'DebugSectionDescriptor']
-    kw = dict((k.arg, ast.unparse(k.value)) for k in mk[0].keywords) if mk else None
+    kw = dict((k.arg, U(k.value)) for k in mk[0].keywords) if mk else None
     want = {'stream': 'section_stream', 'name': 'section.name', 'global_offset': "section['sh_offset']",
             'size': 'section.data_size // 2 if phantom_bytes else section.data_size', 'address': "section['sh_addr']"}
     ctx.ob('R-MPT', g.construct, 'descriptor: stream, logical size, address', kw == want, got=kw, expected=want,
@@ -216,17 +217,17 @@ def check_dom(ctx, w):
     need = [expr.spec_cond('size > 12'), expr.spec_cond("compression_type == b'ZLIB'"), expr.spec_cond('uncompressed_size == size')]
     ok = bool(rp)
     for conds, ret, p in rp:
-        cs = dict((expr.cond_str(t, env), pol) for t, pol in conds)
+        cs = expr.Facts(expr.CP(expr.cond_str(t, env), pol) for t, pol in conds)
         for n in need:
             if cs.get(n) is not True:
                 ok = False
-    ctx.ob('R-DOM', f.construct, 'magic, minimum size and inflated-size equality dominate the return', ok, got=[[(expr.cond_str(t, env), pol) for t, pol in c] for c, r, p in rp][:1],
+    ctx.ob('R-DOM', f.construct, 'magic, minimum size and inflated-size equality dominate the return', ok, got=[[expr.CP(expr.cond_str(t, env), pol) for t, pol in c] for c, r, p in rp][:1],
            expected=need, msg='legacy framing checks must hold on every returning path')
     tr = expr.assign_trace(f.node, env)
     ctx.ob('R-DOM', f.construct, '4-byte magic then 8-byte big-endian size from offset 0',
            tr.get('compression_type') == [('=', 'read(stream,4)')] and tr.get('uncompressed_size') == [('=', "index(unpack(struct,'>Q',read(stream,8)),0)")] and
            [o.t() for o in streams.func_ops(f.node, env)][:1] == [('seek', 'stream', '0', 'SEEK_SET')], got=(tr.get('compression_type'), tr.get('uncompressed_size')))
-    src = ast.unparse(f.node)
+    src = U(f.node)
     ctx.ob('R-DOM', f.construct, 'every chunk inflated and the tail flushed', 'uncompressed_stream.write(decompressor.decompress(chunk))' in src and
            'uncompressed_stream.write(decompressor.flush())' in src and 'if not chunk:\n            break' in src)
     ctx.ob('R-DOM', f.construct, 'size = measured size of the inflated stream; descriptor replaced',
@@ -240,43 +241,43 @@ def check_dom(ctx, w):
     got = None
     if ok:
         for p in paths.paths_reaching(g.node, mk[0]):
-            cs = dict((expr.cond_str(t, genv), pol) for t, pol in p.conds())
+            cs = expr.Facts(expr.CP(expr.cond_str(t, genv), pol) for t, pol in p.conds())
             got = cs
             if cs.get(crc) is not False:
                 ok = False
     ctx.ob('R-DOM', g.construct, 'CRC comparison precedes the linked ELFFile on every path', ok, got=got, expected=crc,
            msg='a debug link whose checksum does not match its target must be rejected before its DWARF is used')
-    raises = [p for p in paths.func_paths(g.node) if p.end[0] == 'raise' and dict((expr.cond_str(t, genv), pol) for t, pol in p.conds()).get(crc) is True]
-    ctx.ob('R-DOM', g.construct, 'CRC mismatch raises ELFError', len(raises) >= 1 and all('ELFError' in ast.unparse(p.end[1]) for p in raises))
+    raises = [p for p in paths.func_paths(g.node) if p.end[0] == 'raise' and expr.Facts(expr.CP(expr.cond_str(t, genv), pol) for t, pol in p.conds()).get(crc) is True]
+    ctx.ob('R-DOM', g.construct, 'CRC mismatch raises ELFError', len(raises) >= 1 and all('ELFError' in U(p.end[1]) for p in raises))
     # both stream_loader call sites depend on follow_links
     sites = []
     for fn in (g, w.model.func(EF, 'ELFFile.get_supplementary_dwarfinfo')):
         for c in ast.walk(fn.node):
-            if isinstance(c, ast.Call) and ast.unparse(c.func) == 'self.stream_loader':
+            if isinstance(c, ast.Call) and U(c.func) == 'self.stream_loader':
                 sites.append((fn, c))
     ctx.ob('R-DOM', g.construct, 'two loader call sites', len(sites) == 2, got=len(sites))
     for fn, c in sites:
         if fn is g:
             okf = True
             for p in paths.paths_reaching(fn.node, c):
-                cs = [(expr.cond_str(t, genv), pol) for t, pol in p.conds()]
+                cs = [expr.CP(expr.cond_str(t, genv), pol) for t, pol in p.conds()]
                 if not any('T(follow_links)' in c0 and pol for c0, pol in cs):
                     okf = False
             ctx.ob('R-DOM', fn.construct, 'debug-link loader call depends on follow_links', okf)
-    sup_calls = [c for c in ast.walk(g.node) if isinstance(c, ast.Call) and ast.unparse(c.func) == 'self.get_supplementary_dwarfinfo']
+    sup_calls = [c for c in ast.walk(g.node) if isinstance(c, ast.Call) and U(c.func) == 'self.get_supplementary_dwarfinfo']
     okf = len(sup_calls) == 1
     if okf:
         for p in paths.paths_reaching(g.node, sup_calls[0]):
-            cs = dict((expr.cond_str(t, genv), pol) for t, pol in p.conds())
+            cs = expr.Facts(expr.CP(expr.cond_str(t, genv), pol) for t, pol in p.conds())
             if cs.get('T(follow_links)') is not True:
                 okf = False
     ctx.ob('R-DOM', g.construct, 'supplementary loader reached only under follow_links', okf)
-    cond = [n for n in ast.walk(g.node) if isinstance(n, ast.If) and 'debuglink_section' in ast.unparse(n.test)]
+    cond = [n for n in ast.walk(g.node) if isinstance(n, ast.If) and 'debuglink_section' in U(n.test)]
     ctx.ob('R-DOM', g.construct, 'debug link followed only without own debug info, with follow_links and a loader',
            len(cond) == 1 and expr.cond_str(cond[0].test, genv) == expr.spec_cond('debuglink_section and not has_dwarf_info(self, True) and follow_links and stream_loader'),
            got=expr.cond_str(cond[0].test, genv) if cond else None)
     ctx.ob('R-DOM', g.construct, 'link parsed with Gnu_debuglink at the section offset',
-           'debuglink = struct_parse(self.structs.Gnu_debuglink, debuglink_section.stream, debuglink_section.header.sh_offset)' in ast.unparse(g.node))
+           'debuglink = struct_parse(self.structs.Gnu_debuglink, debuglink_section.stream, debuglink_section.header.sh_offset)' in U(g.node))
     h = w.model.func('dwarf/dwarf_util.py', '_file_crc32')
     henv = expr.FEnv(h.node, params=('file',), inline=False)
     tr = expr.assign_trace(h.node, henv)
@@ -302,7 +303,7 @@ def check_presence(ctx, w):
 def check_sup(ctx, w):
     f = w.model.func(DI, 'DWARFInfo.parse_debugsupinfo')
     env = expr.FEnv(f.node, inline=False)
-    rp = [([(expr.cond_str(t, env), pol) for t, pol in c], expr.nfs(r, env)) for c, r, p in paths.returns_with_conds(f.node)]
+    rp = [([expr.CP(expr.cond_str(t, env), pol) for t, pol in c], expr.nfs(r, env)) for c, r, p in paths.returns_with_conds(f.node)]
     sup = expr.spec_cond('debug_sup_sec is not None')
     alt = expr.spec_cond('gnu_debugaltlink_sec is not None')
     is0 = expr.spec_cond('is_supplementary == 0')
@@ -320,9 +321,9 @@ def check_sup(ctx, w):
     genv = expr.FEnv(g.node, params=('dwarfinfo',), inline=False)
     tests = [expr.cond_str(n.test, genv) for n in ast.walk(g.node) if isinstance(n, ast.If)]
     ctx.ob('W-SUP', g.construct, 'loaded only with a link and a loader', tests == [expr.spec_cond('supfilepath is not None and stream_loader is not None')], got=tests)
-    ctx.ob('W-SUP', g.construct, 'supplementary DWARF from the loaded file', 'supelffile = ELFFile(stream)' in ast.unparse(g.node) and 'dwarf_info = supelffile.get_dwarf_info()' in ast.unparse(g.node))
+    ctx.ob('W-SUP', g.construct, 'supplementary DWARF from the loaded file', 'supelffile = ELFFile(stream)' in U(g.node) and 'dwarf_info = supelffile.get_dwarf_info()' in U(g.node))
     h = w.model.func(EF, 'ELFFile.get_dwarf_info')
-    ctx.ob('W-SUP', h.construct, 'supplementary info attached to the DWARFInfo', 'dwarfinfo.supplementary_dwarfinfo = self.get_supplementary_dwarfinfo(dwarfinfo)' in ast.unparse(h.node))
+    ctx.ob('W-SUP', h.construct, 'supplementary info attached to the DWARFInfo', 'dwarfinfo.supplementary_dwarfinfo = self.get_supplementary_dwarfinfo(dwarfinfo)' in U(h.node))
 
 
 MUTANTS = [
